@@ -18,13 +18,18 @@ func C11_peers_agree() {
 	// client subprotocols: an ordered selection from {a,b,c}
 	hole := vU8("tokenbyte") // one arbitrary token character inside a subprotocol name
 	vAssume(vOr(vIn(hole, 'a', 'z'), vOr(vIn(hole, '0', '9'), vOr(hole == '-', hole == '.'))))
-	all := []string{"a", string([]byte{'b', hole}), "c"}
-	order := [][]int{{}, {0}, {1}, {0, 1}, {1, 0}, {2, 0, 1}}[vChoose("protocols", 6)]
+	// the fourth name differs from the second only in the letter case of one character
+	// (subprotocol names are case-sensitive tokens)
+	all := []string{"a", string([]byte{'b', hole}), "c", string([]byte{'b', hole ^ 0x20})}
+	order := [][]int{{}, {0}, {1}, {0, 1}, {1, 0}, {2, 0, 1}, {3, 1}, {1, 3}}[vChoose("protocols", 8)]
 	for _, i := range order {
+		if i == 3 {
+			vAssume(vIn(hole, 'a', 'z'))
+		}
 		d.Protocols = append(d.Protocols, all[i])
 	}
 	// server selector: arbitrary accept set
-	acc := [3]bool{vBool("acc.a"), vBool("acc.bb"), vBool("acc.c")}
+	acc := [4]bool{vBool("acc.a"), vBool("acc.bb"), vBool("acc.c"), vBool("acc.bB")}
 	selector := vChoose("selector", 2)
 	if selector == 1 {
 		u.Protocol = func(p []byte) bool {
